@@ -305,6 +305,12 @@ class SimLock:
     def __init__(self):
         self._real = threading.Lock()
         self.contended = 0
+        s = simexec.THREADS[0]
+        if s is not None and cur() is not None:
+            # a lock allocated by a running simulated thread: a scheduling point, so that
+            # check-then-create sequences around it can interleave
+            s.probe("lock_created_in_thread")
+            s.yield_point("lock.create")
 
     def acquire(self, blocking=True, timeout=-1):
         s = simexec.THREADS[0]
